@@ -140,6 +140,8 @@ pub mod sync {
         pub fn wait<'a, T>(&self, mut guard: MutexGuard<'a, T>) -> LockResult<MutexGuard<'a, T>> {
             let m = guard.m;
             let g = guard.g.take().unwrap();
+            // scheduling point with the mutex still held: the window between a waiter's last test and its going to sleep
+            rt::thread::yield_now();
             super::log("wait", &m.class, m.id, String::new());
             let r = match self.inner.wait(g) {
                 Ok(g)   => Ok(MutexGuard { m, g: Some(g) }),
